@@ -1,6 +1,8 @@
 package props
 
 import (
+	"bufio"
+	"bytes"
 	"fmt"
 	"html/template"
 	"io"
@@ -306,8 +308,80 @@ func c14Run(c *Ctx, i int, r *gen.R) {
 		{"reused csv wrapper", csvW.RenderTo}, {"reused html wrapper (cached template)", htmlW.RenderTo}, {"reused html wrapper with generator", htmlG.RenderTo},
 		{"reused json wrapper", jsonW.RenderTo}, {"reused markdown wrapper", mdW.RenderTo}, {"reused text wrapper", textW.RenderTo},
 	}
+	// destinations the caller OWNS and goes on using: long-lived wrappers of their own (whose first destination
+	// ever may thus be one of these) render into them in any order, again and again, and the caller writes lines
+	// of its own in between.  In the end every destination holds exactly what was sent to it, in order.
+	type ownedDest struct {
+		name  string
+		w     io.Writer
+		flush func() error
+		got   func() string
+		want  strings.Builder
+	}
+	var ob0, ob1, ob2 bytes.Buffer
+	var osb strings.Builder
+	bw0, bw1 := bufio.NewWriter(&ob0), bufio.NewWriterSize(&ob1, 65536)
+	owned := []*ownedDest{
+		{name: "the caller's bufio.NewWriter (default size)", w: bw0, flush: bw0.Flush, got: ob0.String},
+		{name: "the caller's 64 KiB bufio.Writer", w: bw1, flush: bw1.Flush, got: ob1.String},
+		{name: "the caller's bytes.Buffer", w: &ob2, flush: func() error { return nil }, got: ob2.String},
+		{name: "the caller's strings.Builder", w: &osb, flush: func() error { return nil }, got: osb.String},
+	}
+	csvO, jsonO, mdO, htmlO, textO := csv.Wrap(t), json.Wrap(t), markdown.Wrap(t), html.Wrap(t), texttable.Wrap(t)
+	ownedRenders := []struct {
+		name  string
+		to    func(w io.Writer) error
+		fresh func(w io.Writer) error // the same render through a wrapper made for the occasion
+	}{
+		{"long-lived csv wrapper", csvO.RenderTo, func(w io.Writer) error { return csv.RenderTo(t, w) }},
+		{"long-lived json wrapper", jsonO.RenderTo, func(w io.Writer) error { return json.RenderTo(t, w) }},
+		{"long-lived markdown wrapper", mdO.RenderTo, func(w io.Writer) error { return markdown.RenderTo(t, w) }},
+		{"long-lived html wrapper", htmlO.RenderTo, func(w io.Writer) error { return html.Wrap(t).RenderTo(w) }},
+		{"long-lived text wrapper", textO.RenderTo, func(w io.Writer) error { return texttable.RenderTo(t, w) }},
+	}
+	ownedSteps := 0
+	checkOwned := func(when string) bool {
+		for _, d := range owned {
+			if err := d.flush(); err != nil {
+				c.Rec.Violate("owned-destination:flush-fails", fmt.Sprintf("%s: flushing %s fails: %v", when, d.name, err), cs)
+				return false
+			}
+			c.Rec.Count("caller-owned_destinations_compared_with_what_was_sent_to_them", 1)
+			if got := d.got(); got != d.want.String() {
+				c.Rec.Violate("owned-destination:holds-other-bytes", fmt.Sprintf("%s: %s holds %q; what was rendered into it and written to it by the caller, in order, is %q", when, d.name, got, d.want.String()), cs)
+				return false
+			}
+		}
+		return true
+	}
 	n := r.Range(5, 30)
 	for k := 0; k < n; k++ {
+		if r.Chance(1, 5) {
+			d := owned[r.Intn(len(owned))]
+			x := ownedRenders[r.Intn(len(ownedRenders))]
+			if r.Bool() {
+				line := fmt.Sprintf("-- a line of the caller's own, before step %d\n", k+1)
+				io.WriteString(d.w, line)
+				d.want.WriteString(line)
+			}
+			// (a render that is refused part-way - an item the JSON encoder cannot take - has written its beginning)
+			var pb bytes.Buffer
+			ferr := x.fresh(&pb)
+			piece := pb.String()
+			err := x.to(d.w)
+			cs.Renders = append(cs.Renders, fmt.Sprintf("%s: RenderTo %s", x.name, d.name))
+			ownedSteps++
+			c.Rec.Count("renders_into_destinations_the_caller_owns_and_reuses", 1)
+			if (err != nil) != (ferr != nil) {
+				c.Rec.Violate("owned-destination:status-differs", fmt.Sprintf("step %d: %s into %s has error=%v, a fresh wrapper has error=%v", k+1, x.name, d.name, err, ferr), cs)
+				return
+			}
+			d.want.WriteString(piece)
+			if r.Chance(1, 3) && !checkOwned(fmt.Sprintf("after step %d", k+1)) {
+				return
+			}
+			continue
+		}
 		if r.Chance(1, 12) {
 			// looking at the table between renders (a log line, a debugger) is not a change either
 			cs.Renders = append(cs.Renders, "the table, its rows and cells are formatted with %v and %#v")
@@ -373,6 +447,9 @@ func c14Run(c *Ctx, i int, r *gen.R) {
 				return
 			}
 		}
+	}
+	if ownedSteps > 0 && !checkOwned("at the end of the sequence") {
+		return
 	}
 	c.Rec.Eval(gen.Hash64(spec.Shape(), fmt.Sprint(spec.HeaderTexts()), fmt.Sprint(textsOf(&spec)), fmt.Sprint(cs.Renders)), len(first) >= 2)
 	if c.Rec.WantSample() && i%15 == 4 {
